@@ -449,4 +449,5 @@ RULES = [
 	('14.g', 'recipient-type failure codes excuse only the final non-blinded node; final payload TLVs are sorted after merging', r14g),
 	('14.e', 'failures: blame only behind the hop HMAC; build then encrypt; key derivation per purpose', r14e),
 	('14.p', 'same-name field transfer: structs carrying this property\'s quantities are filled from the same-named field or a reviewed alias (rules/provenance.py)', lambda F: provenance.for_property(F, 'C14', '14.p')),
+	('14.q', 'no call hands a value named like one parameter of the callee to a different parameter (swapped type-compatible arguments; rules/provenance.py)', lambda F: provenance.swaps_for_property(F, 'C14', '14.q')),
 ]
